@@ -369,7 +369,10 @@ pub fn view_layout(t: &T, class: &str, rng: &mut Rng) -> Option<Lay> {
                 return None;
             }
             // stride 0 on a non-empty random subset of the constant dims
-            let mut zero: Vec<usize> = cd.iter().copied().filter(|_| rng.chance(1, 2)).collect();
+            // (all of them half of the time: a tensor constant along a proper subset
+            // of its batch dims then becomes a *partial* broadcast view)
+            let all = rng.chance(1, 2);
+            let mut zero: Vec<usize> = cd.iter().copied().filter(|_| all || rng.chance(1, 2)).collect();
             if zero.is_empty() {
                 zero.push(*rng.pick(&cd));
             }
